@@ -10,7 +10,8 @@ theorem cols_mapCols (f : Nat → Nat) (e : Expr) : cols (mapCols f e) = (cols e
   match e with
   | .lit _ | .col _ => simp [mapCols, cols]
   | .not a | .neg a | .pos a | .isNull _ a | .strFn _ a => simp [mapCols, cols, cols_mapCols f a]
-  | .and a b | .or a b | .cmp _ a b | .arith _ a b | .like _ a b | .concat a b =>
+  | .coalesce xs => simp [mapCols, cols, colsList_mapCols f xs]
+  | .and a b | .or a b | .cmp _ a b | .arith _ a b | .like _ a b | .concat a b | .nullif a b =>
     simp [mapCols, cols, cols_mapCols f a, cols_mapCols f b]
   | .between _ a b c => simp [mapCols, cols, cols_mapCols f a, cols_mapCols f b, cols_mapCols f c]
   | .inList _ a xs => simp [mapCols, cols, cols_mapCols f a, colsList_mapCols f xs]
@@ -30,7 +31,8 @@ theorem inScope_conjuncts (w : Nat) : ∀ (e : Expr), inScope w e = (conjuncts e
     rw [inScope_and, inScope_conjuncts w a, inScope_conjuncts w b]
     simp [conjuncts, List.all_append]
   | .lit _ | .col _ | .not _ | .neg _ | .pos _ | .or _ _ | .cmp _ _ _ | .arith _ _ _ | .like _ _ _ | .isNull _ _
-  | .between _ _ _ _ | .inList _ _ _ | .caseWhen _ | .caseOf _ _ | .strFn _ _ | .concat _ _ => by simp [conjuncts]
+  | .between _ _ _ _ | .inList _ _ _ | .caseWhen _ | .caseOf _ _ | .strFn _ _ | .concat _ _ | .nullif _ _
+  | .coalesce _ => by simp [conjuncts]
 
 theorem inScope_foldl (w : Nat) (ps : List Expr) (acc : Expr) :
     inScope w (ps.foldl (fun a q => Expr.and a q) acc) = (inScope w acc && ps.all (inScope w)) := by
